@@ -2,6 +2,7 @@ package props
 
 import (
 	"fmt"
+	"strconv"
 	"testing"
 
 	"pgregory.net/rapid"
@@ -112,8 +113,51 @@ func (l *letGen) use(depth int) ast.Expr {
 	return &ast.Chain{Head: ast.Head{Kind: ast.HMultiList, Items: []ast.Expr{inner(), l.use(depth + 1)}}}
 }
 
+// wide draws lets with many distinct names: one let with up to 40 bindings,
+// or a tower of up to 40 nested single-binding lets, followed by the usual
+// small lets, whose bodies read some of the many names (scope tables that
+// switch representation at a size, or are flattened, show here).
+func (l *letGen) wide() ast.Expr {
+	t := l.t
+	n := gen.Pick(t, "widen", []int{9, 16, 17, 18, 33, 40})
+	names := make([]string, n)
+	vals := make([]ast.Expr, n)
+	for i := range names {
+		names[i] = "v" + strconv.Itoa(i)
+		vals[i] = ast.Lit(jv.VInt(int64(100 + i)))
+		if i%5 == 4 {
+			vals[i] = l.field()
+		}
+	}
+	reads := func() ast.Expr {
+		items := []ast.Expr{}
+		for k := rapid.IntRange(1, 4).Draw(t, "nreads"); k > 0; k-- {
+			items = append(items, ast.Var(gen.Pick(t, "wideread", names)))
+		}
+		return &ast.Chain{Head: ast.Head{Kind: ast.HMultiList, Items: items}}
+	}
+	saved := len(l.vars)
+	l.vars = append(l.vars, names...)
+	// one or two ordinary lets inside, then the reads
+	var body ast.Expr = &ast.Chain{Head: ast.Head{Kind: ast.HMultiList, Items: []ast.Expr{reads(), l.let(2), reads()}}}
+	for k := rapid.IntRange(0, 2).Draw(t, "between"); k > 0; k-- {
+		body = &ast.Let{Names: []string{gen.Pick(t, "midname", []string{"x", "y", "v0", "v3"})}, Vals: []ast.Expr{l.value(3)}, Body: body}
+	}
+	l.vars = l.vars[:saved]
+	if rapid.Bool().Draw(t, "tower") {
+		for i := n - 1; i >= 0; i-- {
+			body = &ast.Let{Names: names[i : i+1], Vals: vals[i : i+1], Body: body}
+		}
+		return body
+	}
+	return &ast.Let{Names: names, Vals: vals, Body: body}
+}
+
 func (l *letGen) let(depth int) ast.Expr {
 	t := l.t
+	if depth == 0 && rapid.IntRange(0, 24).Draw(t, "wide") == 0 {
+		return l.wide()
+	}
 	n := rapid.IntRange(1, 3).Draw(t, "nbind")
 	le := &ast.Let{}
 	seen := map[string]bool{}
@@ -233,8 +277,8 @@ func collectLets(e ast.Expr) []*ast.Let {
 func c19Doc(t *rapid.T) jv.Val {
 	arr := func() jv.Val {
 		n := rapid.IntRange(0, 4).Draw(t, "n")
-		if rapid.IntRange(0, 39).Draw(t, "long") == 0 {
-			n = gen.Pick(t, "longlen", []int{13, 33, 63, 64, 65, 100})
+		if rapid.IntRange(0, 79).Draw(t, "long") == 0 {
+			n = gen.Pick(t, "longlen", []int{13, 33, 64, 65})
 		}
 		a := make([]jv.Val, n)
 		for i := range a {
@@ -272,6 +316,12 @@ func TestC19_Let(t *testing.T) {
 		text := ast.RenderWith(e, gen.Chooser{T: t})
 		c.Case()
 		res, ev := model.Eval(e, doc)
+		if res.Undet == "" && res.Err == 0 && valueSize(res.V, 200000) >= 200000 {
+			// long arrays under nested projections: the result is legitimately
+			// huge (polynomial), and comparing it costs more than it tells
+			c.Skip("result-too-large")
+			return
+		}
 		if res.Undet == "" {
 			if modelDiff(t, c, "let", e, text, doc, res) {
 				return
@@ -348,4 +398,27 @@ func init() {
 		}
 		return run.SameOutcome(o1, o2, r.Loose)
 	}
+}
+
+
+// valueSize counts the nodes of v, giving up at limit.
+func valueSize(v jv.Val, limit int) int {
+	n := 1
+	switch v.K {
+	case jv.Arr:
+		for _, e := range v.A {
+			if n >= limit {
+				return n
+			}
+			n += valueSize(e, limit-n)
+		}
+	case jv.Obj:
+		for _, m := range v.O {
+			if n >= limit {
+				return n
+			}
+			n += valueSize(m.V, limit-n)
+		}
+	}
+	return n
 }
